@@ -441,7 +441,7 @@ using PublicPrivateRequiredPair = std::pair<bool, bool>;
 PublicPrivateRequiredPair publicAndOrPrivateInterfaceTypeRequired(const VariablePtr &variable)
 {
     PublicPrivateRequiredPair pair = std::make_pair(false, false);
-    for (size_t index = 0; index < variable->equivalentVariableCount() && !(pair.first && pair.second); ++index) {
+    for (size_t index = 0; index < variable->equivalentVariableCount(); ++index) {
         auto equivalentVariable = variable->equivalentVariable(index);
         auto componentOfVariable = variable->parent();
         auto componentOfEquivalentVariable = equivalentVariable->parent();
